@@ -489,7 +489,11 @@ def _local(path, how):
 _STOP = (StopIteration, StopAsyncIteration)
 
 
-def _gen_step(s, g):
+def _gen_step(s, g, send=None):
+    """The next item of a streaming generator; with `send` the consumer uses send() / asend() (the value is of no use to the library,
+    but the generator protocol allows it)."""
+    if send is not None:
+        return g.send(send) if s.mode == 'sync' else s.loop.run_until_complete(g.asend(send))
     return next(g) if s.mode == 'sync' else s.loop.run_until_complete(g.__anext__())
 
 
@@ -509,16 +513,16 @@ def _gen_op(s, op, a, i, rr, tkw):
             g = s.device.streaming_shell(a['cmd'], decode=op.get('decode', True), **tkw)
             g = iter(g) if s.mode == 'sync' else g.__aiter__()
             finished = False
-            for _ in range(op.get('take', 0)):
+            for k_ in range(op.get('take', 0)):
                 try:
-                    items.append(_gen_step(s, g))
+                    items.append(_gen_step(s, g, op.get('send') if k_ else None))
                 except _STOP:
                     finished = True
                     break
             if finished:
                 s.rec.ev('ret', api='streaming_shell', avail=bool(s.device.available), clk=int(s.clock.time()))
             elif name:
-                rr.held[name] = dict(gen=g, items=items, i=i, outcome=out)
+                rr.held[name] = dict(gen=g, items=items, i=i, outcome=out, send=op.get('send'))
                 if op.get('freeze'):
                     # the device says nothing more on this stream for the time being (released by a later op's `thaw_after`)
                     s.dev.frozen = set(s.dev.frozen) | {st_.lid for st_ in s.dev.all_streams if getattr(st_, 'op', None) == i}
@@ -550,7 +554,7 @@ def _resume_op(s, op, rr):
         n = op.get('take')
         try:
             while n is None or n > 0:
-                h['items'].append(_gen_step(s, h['gen']))
+                h['items'].append(_gen_step(s, h['gen'], h.get('send')))
                 if n is not None:
                     n -= 1
         except _STOP:
@@ -628,6 +632,16 @@ def run_op(s, op, a, tmp, i, rr):
         rr.extra.setdefault('reentered', {})[i] = cbf.reentered
     if cbf is not None and s.mode == 'async':
         cbf = _as_async(cbf, op.get('cb_kind', ('def', 'obj', 'forward')[(i + len(a.get('path', a.get('dpath', '')))) % 3]))
+    if cbf is not None and op.get('cb_falsy'):
+        inner_cb = cbf
+
+        class FalsyLog(list):
+            """A callable that is falsy when handed in (an empty list that collects the reports it is called with)."""
+
+            def __call__(self, path, n, total):
+                self.append(n)
+                return inner_cb(path, n, total)          # (async: the coroutine of the wrapped callback)
+        cbf = FalsyLog()
     if api == 'pull':
         if isinstance(op.get('dest'), list):      # ['raise', k]: a sink whose k-th write fails (local I/O error mid-transfer)
             dest = _FailingSink(op['dest'][1])
